@@ -151,7 +151,7 @@ mircheck("C13", "Exactly one dead letter per failed delivery, none per success",
          "calls of the real dead_letter::record are observed with their arguments")
 
 mircheck("C11", "Identity is unique and stable; is_alive / upgrade tell the truth", SYMEX,
-         [m("identity", "3 actors; actor A ended by stop / kill / last drop / on_run Err / handler panic at any moment; a sampler task calling identity() through 10 kinds of handle (clone, weak, weak clone, upgraded, Box<dyn TellHandler/AskHandler/ActorControl> and their as_control / downgrade), is_alive(), ActorWeak::is_alive(), upgrade() and sends at arbitrary points", "same Identity everywhere; is_alive true before any cause, false after the JoinHandle resolved; upgrade/weak is_alive <=> strong senders exist; sends after the end fail"),
+         [m("identity", "3 actors; actor A ended by stop / kill / last drop / on_run Err / handler panic at any moment; a sampler task calling identity() through 10 kinds of handle (clone, weak, weak clone, upgraded, Box<dyn TellHandler/AskHandler/ActorControl> and their as_control / downgrade), is_alive() (asked of the ActorRef, of a Box<dyn ActorControl> made from it and of its clone_boxed()), ActorWeak::is_alive(), upgrade() and sends at arbitrary points", "same Identity everywhere; is_alive true before any cause, false after the JoinHandle resolved; upgrade/weak is_alive <=> strong senders exist; sends after the end fail"),
           m("id_alloc", "2 threads (separate thread-local storage) x K consecutive real spawns each (K = largest prefix <= 70, thorough 140, whose number of interleavings stays <= 3000; K=6 for one atomic operation per spawn, K=70 when the global is touched once per block); every atomic operation on a static recorded symbolically; EVERY merge of the two threads' atomic operations x symbolic initial value (< 2^62) of each static", "z3 refutes 'two of the 2K ids are equal' under the recorded path conditions")],
          "see scenarios", "more than 2 concurrent spawners; more than K spawns per thread; statics at or above 2^62 (wrap-around); atomic operations other than load/store/fetch_add/fetch_sub on the id state (reported inconclusive)", "trace monitors + a z3 interleaving argument over the recorded atomic operations")
 mircheck("C14", "Deadlock detection is complete for sequential ask cycles", SYMEX,
@@ -210,7 +210,7 @@ CHECKS["C18"] = {
                 "feature_sets": [[], ["tracing"], ["metrics"], ["test-utils"], ["deadlock-detection"], ["deadlock-detection", "metrics", "test-utils", "tracing"]]}],
 }
 mircheck("C17", "Blocking API is the async API seen from a thread", SYMEX,
-         [m("blocking", "8 configurations: blocking_tell/blocking_ask without timeout, the deprecated aliases with an (ignored) timeout, the timeout variants against a live actor, an actor that never answers in time, a mailbox that stays full, a killed actor; one calling thread (its whole call is one step while every other task keeps being scheduled, all choices explored) + an async sender / stopper / killer", "same C01/C02/C03/C13 monitors; with a timeout the call returns by the (virtual) deadline and never before it reports Timeout; aliases create no timer; timers carry the caller's duration")],
+         [m("blocking", "15 configurations: blocking_tell/blocking_ask without timeout, the deprecated aliases with an (ignored) timeout, the timeout variants (timeouts 0, 2..50, Duration::MAX) against a live actor, an actor that never answers in time, a mailbox that stays full, a killed actor, handlers with scripted durations, spawn_blocking context; one calling thread (its whole call is one step while every other task keeps being scheduled, all choices explored) + an async sender / stopper / killer", "same C01/C02/C03/C13 monitors; with a timeout the call returns by the (virtual) deadline and never before it reports Timeout; aliases create no timer; timers carry the caller's duration")],
          "see scenario", "real OS threads, several concurrent blocking callers, wall-clock bounds, 'callable inside a runtime without panicking' (a property of real tokio's runtime-entering rules): NOT claimed",
          "the helper-thread closure and its private runtime are interpreted inline (thread::spawn runs the closure at the spawn point; Runtime::block_on drives the future while the scheduler keeps choosing other transitions)")
 
@@ -220,14 +220,14 @@ CHECKS["C03"]["outside"] = "reply types other than the scripted u8 and JoinHandl
 CHECKS["C19"] = {
     "title": "Macro-generated code means what the hand-written code would", "level": "model_checking",
     "technique": SYMEX + " applied to the code GENERATED by the real macros for a corpus of programs (enumerated from the handler-signature grammar), with symbolic actor state and message payloads",
-    "functions": ["the expansion of #[derive(Actor)] and #[message_handlers] (rsactor-derive, executed by rustc when the overlay is compiled) for 9 corpus programs: structs, tuple struct, enum, generic struct x return types {u32, (), Result<..>, std::result::Result<..>, path::Result<T> (one type argument, the shape of anyhow::Result<T>), type alias of Result, Option<..>} x {#[handler], #[handler(result)], #[handler(no_log)]} x a co-existing non-handler method", "<T as PayloadHandler<A>>::handle_message", "ActorRef::{tell,ask}", "run_actor_lifecycle"],
-    "bounds": "9 generated programs (every valid return-type x option combination occurs), 2 handlers each, one tell and one ask per handler, actor state (32 bit) and the four message payloads (8 bit) symbolic; runtime half: 2 clients, 4 messages, all schedules",
+    "functions": ["the expansion of #[derive(Actor)] and #[message_handlers] (rsactor-derive, executed by rustc when the overlay is compiled) for 11 corpus programs: structs, tuple struct, enum, generic struct x return types {u32, (), Result<..>, std::result::Result<..>, path::Result<T> (one type argument, the shape of anyhow::Result<T>), self::path::Result<T> (crate-local, the shape of crate::error::Result<T>), type alias of Result, Option<..>} x {#[handler], #[handler(result)], #[handler(no_log)]} x a co-existing non-handler method", "<T as PayloadHandler<A>>::handle_message", "ActorRef::{tell,ask}", "run_actor_lifecycle"],
+    "bounds": "11 generated programs (every valid return-type x option combination occurs), 2 handlers each, one tell and one ask per handler, actor state (32 bit) and the four message payloads (8 bit) symbolic; runtime half: 2 clients, 4 messages, all schedules",
     "outside": "the macro algorithm itself runs at compile time on syn trees and is not executed symbolically: programs are ENUMERATED from the grammar, only their inputs are symbolic; compile-error rows of the table (result + no_log, result on `()`) are not checked; Reply-type equality is checked through the shape of replies, not at the type level",
     "assumptions": MIRENV + ["tracing::error!/warn! are model macros that report their level to an observable hook without evaluating their arguments"],
     "trusted_base": MIRTRUST + ["rustc's macro expansion of the corpus"],
     "explanation": "for every corpus program and all values: ask replies and the final actor state equal the arithmetic of the user methods stated independently by the generator (handle == the method), reply shapes match the declared return types, derive(Actor)::on_start returns its argument unchanged (enum variant, extra fields), and the number of error events emitted by generated on_tell_result code equals the documented decision table; runtime half: on_tell_result exactly once after each tell with the handler's value, never after an ask",
     "groups": [{"engine": "mir", "features": [], "scenarios": [m("macro_runtime", "scripted actor, 2 clients, tell/ask mix, all schedules", "on_tell_result once per tell with the handler's value, never for asks, directly after the handler")]},
-               {"engine": "mir", "features": ["verif-corpus"], "scenarios": [m("macro_corpus", "9 programs x symbolic state and payloads", "see explanation", xval=False)]}],
+               {"engine": "mir", "features": ["verif-corpus"], "scenarios": [m("macro_corpus", "11 programs x symbolic state and payloads", "see explanation", xval=False)]}],
 }
 
 # ---- Kani first-poll harnesses (real Rust semantics and types; every future polled once) ----
